@@ -56,3 +56,29 @@ pub fn mix(seed: u64) -> u64 {
     z = (z ^ (z >> 27)).wrapping_mul(0x94D049BB133111EB);
     z ^ (z >> 31)
 }
+
+// User types at paths whose segments look like pieces of type syntax (digits followed by a primitive's name,
+// names of std crates and modules): same layouts, distinct types.
+pub mod vec3_usize {
+    pub struct Point(pub u32);
+}
+pub mod vec3 {
+    pub struct Point(pub u32);
+}
+pub mod core {
+    pub mod option {
+        pub struct Option2(pub u32);
+    }
+}
+pub mod alloc {
+    pub mod vec {
+        pub struct Vec3(pub u32);
+    }
+}
+pub mod i32_f64 {
+    #[allow(non_camel_case_types)]
+    pub struct Mixed_isize(pub u32);
+}
+pub mod x86_64 {
+    pub struct Reg8_u8(pub u32);
+}
